@@ -1029,11 +1029,135 @@ def gen_perturbed(record: dict) -> str:
     out.append("end DV.Gen\n")
     return "\n".join(out)
 
+
+# ----------------------------------------------------------------------------------------
+# length scales (C17): the closed-form lines of get_length_scale
+# ----------------------------------------------------------------------------------------
+
+
+def gen_scales(record: dict) -> str:
+    IA = "droplets/image_analysis.py"
+    out = [
+        "/- GENERATED by tools/py2lean.py from droplets/image_analysis.py (get_length_scale) — do not edit. -/",
+        "import DropletsVerif.Num",
+        "namespace DV.Gen",
+        "open DV",
+        "",
+        "def lsum {α : Type} [DNum α] (xs : List α) : α := xs.foldl (· + ·) (DNum.lit 0)",
+        "def ldot {α : Type} [DNum α] (xs ys : List α) : α := (xs.zip ys).foldl (fun acc p => acc + p.1 * p.2) (DNum.lit 0)",
+        "",
+    ]
+    fd = find_def(module_tree(IA), "get_length_scale")
+
+    def branch(method: str) -> list[ast.stmt]:
+        """body of `if method == "<method>" or ...`"""
+        node = None
+        for s in fd.body:
+            if isinstance(s, ast.If) and any(dotted(n) == "method" for n in ast.walk(s.test)):
+                node = s
+                break
+        while node is not None:
+            names = [c.value for c in ast.walk(node.test) if isinstance(c, ast.Constant) and isinstance(c.value, str)]
+            if method in names:
+                return list(node.body)
+            node = node.orelse[0] if node.orelse and isinstance(node.orelse[0], ast.If) else None
+        raise Untranslatable(f"branch for {method} not found")
+
+    def assigns(stmts, name):
+        res = []
+        for s in stmts:
+            for n in ast.walk(s):
+                if isinstance(n, ast.Assign) and dotted(n.targets[0]) == name:
+                    res.append(n.value)
+        return res
+
+    class E:
+        """expression translator knowing array sums"""
+        def __init__(self, names, lists):
+            self.ctx = Ctx(names)
+            self.lists = lists
+
+        def tr(self, node):
+            if isinstance(node, ast.Call) and dotted(node.func) == "np.sum" and len(node.args) == 1:
+                a = node.args[0]
+                if dotted(a) in self.lists:
+                    return f"(lsum {self.lists[dotted(a)]})"
+                if isinstance(a, ast.BinOp) and isinstance(a.op, ast.Mult) and dotted(a.left) in self.lists and dotted(a.right) in self.lists:
+                    return f"(ldot {self.lists[dotted(a.left)]} {self.lists[dotted(a.right)]})"
+                raise Untranslatable("np.sum argument")
+            if isinstance(node, ast.BinOp):
+                if isinstance(node.op, ast.Pow):
+                    return f"(DNum.rpow {self.tr(node.left)} {self.tr(node.right)})"
+                op = {ast.Add: "+", ast.Sub: "-", ast.Mult: "*", ast.Div: "/"}.get(type(node.op))
+                if op:
+                    return f"({self.tr(node.left)} {op} {self.tr(node.right)})"
+            if isinstance(node, ast.Call) and dotted(node.func) == "len" and dotted(node.args[0]) in self.ctx.names:
+                return f"(DNum.lit {self.ctx.names[dotted(node.args[0])][0]})"
+            return expr(node, self.ctx)
+
+    def item(name, sig, build):
+        try:
+            body = build()
+            record[name] = {"source": f"{IA}:get_length_scale", "ast_sha": ast_hash(fd), "status": "ok"}
+            out.append(f"def {name} {{α : Type}} [DNum α] {sig} : α :=\n  {body}\n")
+        except Untranslatable as e:
+            record[name] = {"source": f"{IA}:get_length_scale", "status": "untranslated", "why": str(e)}
+            out.append(f"/- UNTRANSLATED: {e} -/\ndef {name} {{α : Type}} [DNum α] {sig} : α :=\n  DNum.untranslated\n")
+
+    def mean():
+        vals = assigns(branch("structure_factor_mean"), "length_scale")
+        if len(vals) != 1:
+            raise Untranslatable("length_scale assignment in the mean branch")
+        return E({}, {"sf": "sfs", "k_mag": "ks"}).tr(vals[0])
+
+    def peak():
+        vals = [v for v in assigns(branch("structure_factor_maximum"), "length_scale") if not (dotted(v) == "math.nan")]
+        if len(vals) != 1:
+            raise Untranslatable("length_scale assignment in the maximum branch")
+        return E({"result.x": ("x", "num")}, {}).tr(vals[0])
+
+    def sigma():
+        vals = assigns(branch("structure_factor_maximum"), "smoothing")
+        vals = [v for v in vals if not (isinstance(v, ast.Call) and dotted(v.func) == "kwargs.pop")]
+        if len(vals) != 1:
+            raise Untranslatable("default smoothing assignment")
+        v = vals[0]
+        # scalar_field.grid.cuboid.size.max()  ->  Lmax ;  grid.typical_discretization -> dx
+        class R(ast.NodeTransformer):
+            def visit_Call(self, n):
+                if dotted(n.func) == "scalar_field.grid.cuboid.size.max":
+                    return ast.Name(id="Lmax", ctx=ast.Load())
+                return self.generic_visit(n)
+            def visit_Attribute(self, n):
+                if dotted(n) == "scalar_field.grid.typical_discretization":
+                    return ast.Name(id="dx", ctx=ast.Load())
+                return self.generic_visit(n)
+        v = R().visit(v)
+        return E({"Lmax": ("Lmax", "num"), "dx": ("dx", "num")}, {}).tr(v)
+
+    def droplet():
+        b = branch("droplet_detection")
+        vpd = assigns(b, "volume_per_droplet")
+        ls = assigns(b, "length_scale")
+        if len(vpd) != 1 or len(ls) != 1:
+            raise Untranslatable("droplet_detection assignments")
+        e = E({"volume": ("volume", "num"), "droplets": ("count", "nat"), "axes": ("naxes", "nat")}, {})
+        inner = e.tr(vpd[0])
+        e.ctx.names["volume_per_droplet"] = ("vpd", "num")
+        return f"let vpd := {inner}; {e.tr(ls[0])}"
+
+    item("mean_length", "(ks sfs : List α)", mean)
+    item("peak_length", "(x : α)", peak)
+    item("default_sigma", "(Lmax dx : α)", sigma)
+    item("droplet_length", "(volume : α) (count naxes : Nat)", droplet)
+    out.append("end DV.Gen\n")
+    return "\n".join(out)
+
 # ----------------------------------------------------------------------------------------
 # driver
 # ----------------------------------------------------------------------------------------
 
-GENERATORS = {"Spherical": gen_spherical, "Merge": gen_merge, "Profile": gen_profile, "Perturbed": gen_perturbed}
+GENERATORS = {"Spherical": gen_spherical, "Merge": gen_merge, "Profile": gen_profile, "Perturbed": gen_perturbed, "Scales": gen_scales}
 
 
 def write_if_changed(path: Path, text: str) -> bool:
